@@ -235,7 +235,7 @@ def run_property(prop, tier, seed, t0):
             errors.append("%s: %s" % (fid, rec["error"]))
         for a in rec["assumptions"]:
             assumptions.add(a)
-        if rec["n_vcs"] == 0 and not rec["error"]:
+        if rec["n_vcs"] + (rec.get("trivial") or 0) == 0 and not rec["error"]:
             errors.append("%s: zero obligations generated" % fid)
         need_bounded = False
         for oid, o in rec["obligations"].items():
